@@ -397,6 +397,53 @@ def run_deepstack(ctx):
     r.sample({'deep_stack': '=IFERROR(A<n>,"fallback") over A1..A<n> = 1, A1+1, ...; asked with 0..930 extra caller frames'})
 
 
+def run_threads(ctx):
+    """IF / IFS / IFERROR cells over a small dependency chain, queried by several threads at once - through ONE Executor (a shared model
+    object behind a web handler) and through an Executor per thread on one class: every value equals the single-threaded one; a failure
+    inside another thread's bookkeeping must not become an IFERROR fallback"""
+    from .. import threads as vthreads
+    r = ctx.r
+    cells = {'A1': 5, 'A2': 0, 'D1': -1}
+    for i in range(1, 41):
+        cells[f'B{i}'] = f'=A1*{i}+{i}' if i == 1 else f'=B{i - 1}+A1*{i}'
+    # queries of very different length (a chain of 40 cells, a single cell): a short one starts and ends inside a long one and the other way round
+    forms = ['=IFERROR(B40*10,D1+0)', '=IF(B36>0,"pos","neg")', '=IFERROR(B6*10,D1+0)', '=IF(B4>0,"pos","neg")', '=IFERROR(IF(B30>B29,B30-B29,1/0),-7)', '=IF(A1>0,1,2)', '=IFS(B3<0,"a",B5>100,"b",TRUE,"c")', '=IFERROR(B2/A2,"div")', '=IF(IFERROR(B7/A2,0)=0,B8,B9)',
+             '=IFERROR(IF(B10>B9,B10-B9,1/0),-7)', '=IF(A2,"nz",IF(B12>B11,"up","down"))', '=IFERROR(VLOOKUP(99,B1:B5,1,FALSE),B5)', '=IFS(A2,1,B1,2)', '=IFERROR(IFERROR(1/A2,B6),"x")&"|"&B3']
+    where = []
+    for i, f in enumerate(forms):
+        cells[f'F{i + 1}'] = f
+        where.append((0, i + 1, 6))
+    book = pipeline.Book(wbspec.spec(wbspec.sheet('S', cells)), ctx.workdir, name='thr')
+    if book.cls is None:
+        r.violation('translate', {'spec': 'threads'}, book.whole.brief(), 'a loadable class')
+        return
+    from ..xlref import evalr as _ev
+    for shared in (True, False):
+        res = vthreads.concurrent_queries(book.cls, where, threads=6, rounds=(1200 if ctx.tier == 'quick' else 8000), shared_executor=shared, seed=ctx.seed)
+        key = 'one_executor' if shared else 'executor_per_thread'
+        r.ev(res['queries'])
+        r.counters[f'concurrent_queries:{key}'] = r.counters.get(f'concurrent_queries:{key}', 0) + res['queries']
+        r.counters[f'overlapping_query_pairs:{key}'] = r.counters.get(f'overlapping_query_pairs:{key}', 0) + res['overlapping_pairs']
+        r.nt(('threads', key))
+        for (i, cell, got, want) in res['mismatches'][:5]:
+            report(r, ID, None, {'formula': forms[cell[1] - 1], 'how': f'thread {i} of 6, {key.replace("_", " ")}'}, got, want, monitor='concurrent-evaluation')
+        if res['unfinished']:
+            r.inconcl('thread shard did not finish within its watchdog')
+        if shared:
+            # the single-threaded baseline itself is judged by the reference once
+            env_ = _ev.Env(wbspec.spec(wbspec.sheet('S', cells)), {})
+            for i, f in enumerate(forms):
+                try:
+                    outs, _ = _ev.outcomes(env_, 'S', f'F{i + 1}', strict_text=True)
+                except (_ev.NoOpinion, ParseError, _ev.Cycle):
+                    continue
+                b = res['baseline'][(0, i + 1, 6)]
+                o = pipeline.Outcome(pipeline.VALUE, eval(b[2])) if b[0] == 'V' else None
+                if o is not None and not outcome_matches(o, outs, exact=False):
+                    report(r, ID, None, {'formula': f, 'how': 'single-threaded baseline of the thread shard'}, b, outs, monitor='branch-reference')
+    r.sample({'threads': 6, 'formulas': forms[:4]})
+
+
 def classify(f, out, outs):
     return None
 
@@ -404,7 +451,7 @@ def classify(f, out, outs):
 def _plan(tier, seed):
     n = 16
     return ([{'part': p, 'parts': n} for p in range(n)] + [{'lists': i} for i in range(2 if tier == 'quick' else 8)]
-            + [{'conds': i} for i in range(2 if tier == 'quick' else 6)] + [{'areacond': 0}, {'deepstack': 0}])
+            + [{'conds': i} for i in range(2 if tier == 'quick' else 6)] + [{'areacond': 0}, {'deepstack': 0}] + [{'threads': i} for i in range(2 if tier == 'quick' else 6)])
 
 
 def run_shard(shard, ctx):
@@ -424,6 +471,8 @@ def run_shard(shard, ctx):
         return run_areacond(ctx)
     if 'deepstack' in shard:
         return run_deepstack(ctx)
+    if 'threads' in shard:
+        return run_threads(ctx)
     items = build_items(random.Random(ctx.seed), ctx.tier)
     mine = [it for i, it in enumerate(items) if i % shard['parts'] == shard['part']]
     run_items(ctx, mine, 'n')
